@@ -162,7 +162,18 @@ func CosineSimilarity(a, b []float32) float64 {
 		return 0
 	}
 
-	return dot / (math.Sqrt(normA) * math.Sqrt(normB))
+	sim := dot / (math.Sqrt(normA) * math.Sqrt(normB))
+	// Rounding can push the quotient an ulp outside [-1, 1] (e.g. a = b = (15, 9)),
+	// and infinite or NaN components make it NaN.
+	switch {
+	case math.IsNaN(sim):
+		return 0
+	case sim > 1:
+		return 1
+	case sim < -1:
+		return -1
+	}
+	return sim
 }
 
 // SemanticScores computes cosine similarity between query and all commands.
